@@ -13,7 +13,34 @@ import (
 
 type Locker = sync.Locker
 type Map = sync.Map
-type Pool = sync.Pool
+
+// Pool is a deterministic sync.Pool: a LIFO free list that is never cleared by the collector, so an
+// object put back is exactly what the next Get hands out - in every execution and every replay
+// (the real pool's per-P caches and GC clearing are nondeterminism the scheduler does not own;
+// handing an object out again as soon as possible is the behaviour that exposes premature reuse).
+// No locking: tasks run one at a time.
+type Pool struct {
+	New   func() any
+	items []any
+}
+
+func (p *Pool) Get() any {
+	if n := len(p.items); n > 0 {
+		x := p.items[n-1]
+		p.items = p.items[:n-1]
+		return x
+	}
+	if p.New != nil {
+		return p.New()
+	}
+	return nil
+}
+
+func (p *Pool) Put(x any) {
+	if x != nil {
+		p.items = append(p.items, x)
+	}
+}
 
 type Mutex struct{ _ byte }
 
